@@ -227,6 +227,11 @@ func (h *Handler) WhoIs(ip netip.Addr) (packet.Addr, error) {
 		time.Sleep(time.Millisecond * 50 * time.Duration(i+1))
 	}
 
+	// the answer to the last request arrives while we sleep: look once more before giving up
+	if host := h.session.FindIP(ip); host != nil {
+		return packet.Addr{IP: host.Addr.IP, MAC: host.MACEntry.MAC}, nil
+	}
+
 	if Logger.IsDebug() {
 		Logger.Msg("whois not found").IP("ip", ip).Write()
 		h.PrintTable()
